@@ -148,6 +148,16 @@ pkgs = [{"name": "base", "spec": json.dumps(BASE)}, {"name": "base2", "spec": js
 # two self-recursive components that share a property name, merged by allOf (a reference cycle behind a merge)
 pkgs.append({"name": "allofrecmerge", "isolate": True, "spec": json.dumps({"openapi": "3.0.3", "info": {"title": "t", "version": "1"}, "paths": {"/x": {"get": {"responses": {"200": {"description": "ok", "content": {"application/json": {"schema": {"allOf": [{"$ref": "#/components/schemas/A"}, {"$ref": "#/components/schemas/B"}]}}}}}}}},
     "components": {"schemas": {"A": {"type": "object", "properties": {"next": {"$ref": "#/components/schemas/A"}}}, "B": {"type": "object", "properties": {"next": {"$ref": "#/components/schemas/B"}}}}}})})
+# components that are arrays of themselves (nullable / referenced from an optional property / with a validator): each
+# in a process of its own - unbounded recursion in a generator pass ends in a fatal error
+def _selfarr(tree, root):
+    return json.dumps({"openapi": "3.0.3", "info": {"title": "t", "version": "1"}, "paths": {"/x": {"get": {"responses": {"200": {"description": "ok", "content": {"application/json": {"schema": root}}}}}}},
+                       "components": {"schemas": {"Tree": tree}}})
+_T = {"$ref": "#/components/schemas/Tree"}
+pkgs.append({"name": "selfarr_nullable", "isolate": True, "spec": _selfarr({"type": "array", "nullable": True, "items": _T}, _T)})
+pkgs.append({"name": "selfarr_optional", "isolate": True, "spec": _selfarr({"type": "array", "items": _T}, {"type": "object", "properties": {"t": _T}})})
+pkgs.append({"name": "selfarr_minitems", "isolate": True, "spec": _selfarr({"type": "array", "minItems": 0, "maxItems": 3, "items": _T}, {"type": "object", "required": ["t"], "properties": {"t": _T}})})
+pkgs.append({"name": "selfarr_map", "isolate": True, "spec": _selfarr({"type": "object", "additionalProperties": {"type": "array", "items": _T}}, _T)})
 hows = ["null", "empty", "retype", "delete"] if tier != "quick" else ["null", "retype"]
 n = 0
 nodes = 0
